@@ -467,4 +467,9 @@ def r6(ctx):
         ctx.check(ok, "C01.R6", fi, c, "application messages are handed to the handler only in the connected branch", line=c.lineno)
 
 
-RULES = [("C01.R1", r1), ("C01.R2", r2), ("C01.R3", r3), ("C01.R4", r4), ("C01.R5", r5), ("C01.R6", r6)]
+def r_enum(ctx):
+    from .common import enum_identity
+    enum_identity(ctx, "C01.R7", ('connection', 'server', 'client'))
+
+
+RULES = [("C01.R1", r1), ("C01.R2", r2), ("C01.R3", r3), ("C01.R4", r4), ("C01.R5", r5), ("C01.R6", r6), ("C01.R7", r_enum)]
